@@ -34,6 +34,15 @@ class C23(Monitor):
                                   client=client, weight=pw, depends_on=pd, sid=sid)
                     elif s.out:
                         self.fail('refused-priority-emitted', 'refused priority call emitted bytes', s)
+                elif s.op == 'send_headers' and s.ok:
+                    # accepted priority arguments go out with the block, whatever kind of block it is
+                    hf = [f for f in s.out_frames if f.type == C.HEADERS]
+                    want = (pd if pd is not None else 0, bool(a.get('pe')) if a.get('pe') is not None else False,
+                            (pw if pw is not None else 16) - 1)
+                    self.probe('headers_call_with_priority')
+                    if len(hf) != 1 or hf[0].prio != want:
+                        self.fail('headers-priority-not-sent', 'send_headers accepted priority arguments but did not emit them', s,
+                                  want=want, got=hf[0].prio if hf else None)
                 elif s.op == 'prioritize' and not s.ok and not s.snap['closed']:
                     if not (s.exc['where'] or '').endswith('process_input'):
                         self.fail('valid-priority-refused', 'prioritize with valid arguments raised %s' % s.exc['type'], s)
